@@ -202,9 +202,9 @@ M("C09-R5-is-last-off", "C09", [(OM, "pos == len - 1", "pos == len")], ["write_r
 M("C09-R5-csv-selects-json", "C09", [(OM, "OutputFormat::Csv => Box::<CsvFormatter>::default(),", "OutputFormat::Csv => Box::<JsonFormatter>::default(),")], ["select_formatter"])
 
 # ---------------------------------------------------------------- C08
-M("C08-R1-skip-empty-key", "C08", [(S, "                .collect();\n            if result.contains_key(&key) {", "                .collect();\n            if key.iter().all(|k| k.is_empty()) {\n                return;\n            }\n            if result.contains_key(&key) {")], ["partition_conservation"])
+M("C08-R1-skip-empty-key", "C08", [(S, "                .collect();\n            if result.contains_key(&key) {", "                .collect();\n            if key.iter().all(|k| k.is_empty()) {\n                return;\n            }\n            if result.contains_key(&key) {")], ["partition_"])
 M("C08-R1-new-key-empty-partition", "C08", [(S, "result.insert(key, vec![item.clone()]);", "result.insert(key, vec![]);")], ["partition_"])
-M("C08-R2-key-first-field-only", "C08", [(S, "            let key: Vec<String> = group_fields\n                .iter()\n                .map(", "            let key: Vec<String> = group_fields\n                .iter()\n                .take(1)\n                .map(")], ["key_construction"])
+M("C08-R2-key-first-field-only", "C08", [(S, "            let key: Vec<String> = group_fields\n                .iter()\n                .map(", "            let key: Vec<String> = group_fields\n                .iter()\n                .take(1)\n                .map(")], ["partition_key"])
 M("C08-R3-aggregate-over-whole-buffer", "C08", [(S, "                                &mut file_map,\n                                Some(f.1),\n                                column_expr", "                                &mut file_map,\n                                None,\n                                column_expr")], ["groups_aggregate-scope"])
 M("C08-R3-direction-ignored", "C08", [(S, "                                                return if directions[idx] { \n                                                    a.cmp(&b) \n                                                } else { \n                                                    b.cmp(&a) \n                                                };", "                                                return if directions[idx] { \n                                                    a.cmp(&b) \n                                                } else { \n                                                    a.cmp(&b) \n                                                };")], ["groups_ordering-direction"])
 
@@ -485,3 +485,19 @@ M("X-CONFIG-default-first", "C04", [(S, """            self.config
                 .is_audio
                 .as_ref()
                 .unwrap_or(self.config.is_audio.as_ref().unwrap()),""")], ["config-precedence"])
+
+M("C06-R4-parse-limit-absent-eats-lexem", "C06", [(P, """            _ => {
+                self.drop_lexem();
+            }
+        }
+
+        Ok(0)
+    }
+
+    fn parse_output_format""", """            _ => {}
+        }
+
+        Ok(0)
+    }
+
+    fn parse_output_format""")], ["parse_limit"])
